@@ -189,4 +189,98 @@ def leU64? (b : List UInt8) : Option UInt64 :=
       4294967296 * (b4.toNat + 256 * b5.toNat + 65536 * b6.toNat + 16777216 * b7.toNat)))
   | _ => none
 
+/-! ### slices with a capacity
+
+  A `Go.Slice` is a slice that starts at offset 0 of a backing array it does not share with any
+  other slice variable the function can reach: the whole array (its length is `cap`) and `len`.
+  Elements beyond `len` are kept, because reslicing (`s[:n]` with `n ≤ cap`) makes them visible
+  again. What is **assumed** (notes/LEAF.md, "aliasing"): two different slice variables or fields
+  rendered this way never overlap — true of values built by their constructor with separate `make`
+  calls and only ever resliced from offset 0 or appended to below capacity, which is all the
+  translator accepts for them. -/
+
+structure Slice (α : Type) where
+  arr : List α
+  len : Nat
+  ok : len ≤ arr.length
+
+namespace Slice
+variable {α : Type}
+
+/-- the nil slice (`var s []T`, a zero struct field) -/
+def nil : Slice α := ⟨[], 0, Nat.le_refl 0⟩
+/-- `make([]T, 0, n)` filled with `z` beyond `len` -/
+def make (z : α) (len cap : Nat) (h : len ≤ cap) : Slice α := ⟨List.replicate cap z, len, by simpa using h⟩
+/-- the elements `s[0] … s[len-1]` -/
+def live (s : Slice α) : List α := s.arr.take s.len
+/-- `len(s)`, `cap(s)` -/
+def len' (s : Slice α) : Int64 := Int64.ofNat s.len
+def cap (s : Slice α) : Int64 := Int64.ofNat s.arr.length
+
+/-- `s[i]` -/
+def get? (s : Slice α) (i : Int64) : Option α :=
+  if 0 ≤ i.toInt ∧ i.toInt < s.len then s.arr[i.toInt.toNat]? else none
+
+/-- `s[:n]`: panics unless `0 ≤ n ≤ cap(s)` -/
+def to? (s : Slice α) (n : Int64) : Option (Slice α) :=
+  if h : 0 ≤ n.toInt ∧ n.toInt ≤ s.arr.length then some ⟨s.arr, n.toInt.toNat, by omega⟩ else none
+
+/-- `append(s, x)` below capacity writes in place; at capacity Go allocates a new array whose
+    capacity is implementation-defined: `none` (rendered as `stuck`, never as a value) -/
+def append? (s : Slice α) (x : α) : Option (Slice α) :=
+  if h : s.len < s.arr.length then some ⟨s.arr.set s.len x, s.len + 1, by simp; omega⟩ else none
+
+/-- `copy(dst[a:], src[b:])`: `min(len(dst)-a, len(src)-b)` elements, read before any is written
+    (Go's copy is a memmove, so `src` may be the old value of `dst` itself); `none` = the slice
+    expressions panic (`a > len(dst)` or `b > len(src)`) -/
+def copy? (dst : Slice α) (a : Int64) (src : Slice α) (b : Int64) : Option (Slice α) :=
+  if 0 ≤ a.toInt ∧ a.toInt ≤ dst.len ∧ 0 ≤ b.toInt ∧ b.toInt ≤ src.len then
+    let a' := a.toInt.toNat
+    let b' := b.toInt.toNat
+    let n := min (dst.len - a') (src.len - b')
+    let arr := dst.arr.take a' ++ ((src.arr.drop b').take n ++ dst.arr.drop (a' + n))
+    if h : dst.len ≤ arr.length then some ⟨arr, dst.len, h⟩ else none
+  else none
+
+/-- insertion of `x` into a sorted prefix as `insertionSortCmpFunc` does it: `x` moves left while
+    it is strictly smaller than its left neighbour, i.e. it ends before the first element with a
+    strictly greater key -/
+def insertByKey (key : α → Int64) (x : α) : List α → List α
+  | [] => [x]
+  | y :: ys => if key x < key y then x :: y :: ys else y :: insertByKey key x ys
+
+def sortByKey (key : α → Int64) (l : List α) : List α := l.foldl (fun acc x => insertByKey key x acc) []
+
+theorem length_insertByKey (key : α → Int64) (x : α) (l : List α) : (insertByKey key x l).length = l.length + 1 := by
+  induction l with
+  | nil => rfl
+  | cons y ys ih => simp only [insertByKey]; split <;> simp [ih]
+
+theorem length_sortByKey (key : α → Int64) (l : List α) : (sortByKey key l).length = l.length := by
+  unfold sortByKey
+  suffices h : ∀ (l acc : List α), (l.foldl (fun acc x => insertByKey key x acc) acc).length = acc.length + l.length by
+    simpa using h l []
+  intro l
+  induction l with
+  | nil => intro acc; rfl
+  | cons x xs ih => intro acc; simp only [List.foldl_cons, ih, length_insertByKey, List.length_cons]; omega
+
+/-- `slices.SortFunc(s, func(a, b T) int { return cmp.Compare(key(a), key(b)) })`. Go promises a
+    permutation sorted by the key and nothing about elements with equal keys; its implementation
+    is the stable insertion sort above for up to 12 elements and pdqsort beyond. The rendering is
+    exact in both regimes it accepts — at most 12 elements, or pairwise different keys (then the
+    sorted permutation is unique) — and `none` (`stuck`) otherwise. -/
+def sortBy? (key : α → Int64) (s : Slice α) : Option (Slice α) :=
+  if s.len ≤ 12 ∨ (s.live.map key).Nodup then
+    let arr := sortByKey key s.live ++ s.arr.drop s.len
+    if h : s.len ≤ arr.length then some ⟨arr, s.len, h⟩ else none
+  else none
+
+end Slice
+
+/-- an operation whose `none` is the translator's limit, not a panic -/
+def Out.ofOptionStuck {α : Type} : Option α → Out α
+  | some a => .ok a
+  | none => .stuck
+
 end ScionTime.Go
